@@ -18,6 +18,7 @@ From Coq Require Import QArith Bool List String.
 From TV Require Import Num.QNum Model.Common Model.Leaf Model.Root Model.BoxSizing Model.BoxSizingSiteTypes Gen.BoxSizingSites.
 From TV Require Import Proofs.LeafAxis Proofs.BoxSizingProofs.
 From TV Require Gen.AbsPosEnums Model.AbsPosBase Gen.AbsPosGen Model.BoxSizingAbs Proofs.BoxSizingAbsProofs.
+From TV Require Model.AbsPos Model.ScaleBase Model.ScaleAbs Proofs.ScaleAbsProofs Proofs.BoxSizingAbsFull.
 Import ListNotations.
 
 (* ---------------------------------------------------------------------------------------------------------------- *)
@@ -77,6 +78,25 @@ Proof.
     [exact (measure_known_or_respects _) | exact BoxSizingAbsProofs.ex_abs_style_eligible]]].
 Qed.
 
+(* ... and evaluated: the content-box style and its border-box rewrite give the same leaf output and the same root layout
+   (45 x 19, content 33 x 17, one measure call), through compute_leaf_layout and through compute_root_layout *)
+Definition ex12_input : LayoutInput XQ :=
+  mkInput PerformLayout InherentSize (mkSize None None) (mkSize (Some (Fin 200)) (Some (Fin 100)))
+          (mkSize (Definite (Fin 200)) MaxContent).
+Definition ex12_view (r : option (LayoutOutput XQ * list (MeasureCall XQ))) :=
+  option_map (fun p => (x_red (width (out_size (fst p))), x_red (height (out_size (fst p))),
+                        x_red (width (out_content_size (fst p))), x_red (height (out_content_size (fst p))), List.length (snd p))) r.
+Definition ex12_lview (r : option (Layout XQ * list (MeasureCall XQ))) :=
+  option_map (fun p => (x_red (width (l_size (fst p))), x_red (height (l_size (fst p))), List.length (snd p))) r.
+Example C12_leaf_example :
+  let m := measure_known_or (mkSize (Fin 30) (Fin 10)) in
+  let av := mkSize (Definite (Fin 200)) MaxContent in
+  ex12_view (compute_leaf_layout ex12_input ex12_style m) = Some (Fin 45, Fin 19, Fin 33, Fin 17, 1%nat) /\
+  ex12_view (compute_leaf_layout ex12_input (to_border_box ex12_style) m) = Some (Fin 45, Fin 19, Fin 33, Fin 17, 1%nat) /\
+  ex12_lview (root_leaf ex12_style m av) = Some (Fin 45, Fin 19, 1%nat) /\
+  ex12_lview (root_leaf (to_border_box ex12_style) m av) = Some (Fin 45, Fin 19, 1%nat).
+Proof. repeat split; vm_compute; reflexivity. Qed.
+
 (* ---------------------------------------------------------------------------------------------------------------- *)
 (* the `*_resolve` parts of the three absolute-positioning kernels (GENERATED from block.rs, flexbox.rs,
    grid/alignment.rs: everything that reads the child's style): same AbsIn up to xeq in size / min / max *)
@@ -94,6 +114,45 @@ Theorem C12_abs_grid : forall (area : AbsPosBase.Rect XQ) (st : AbsPosBase.AbsSt
   BoxSizingAbs.abs_eligible st ->
   BoxSizingAbsProofs.absin_xeq (AbsPosGen.grid_resolve area (BoxSizingAbs.abs_to_border_box st)) (AbsPosGen.grid_resolve area st).
 Proof. exact BoxSizingAbsProofs.grid_resolve_invariant. Qed.
+
+(* The three theorems above cover the resolve STAGE only (what reads the child's style).  The whole kernels -- resolve, known
+   dimensions, the measure call, final size, placement: what Model/AbsPosRun.v runs in the C11 correspondence -- are
+   box-sizing blind too: location, size and margins of the border-box rewrite equal the original's as numbers (`absout_rel 1`:
+   field-wise equality of rationals; infinities and NaN equal themselves), for every measure function that respects equality
+   of rationals in its known dimensions (`abs_measure_homog 1 m m`; a Q-representation artefact, satisfiable:
+   abs_measure_known_or_respects).  Proofs/BoxSizingAbsFull.v: the k = 1 instance of the C04 kernel lemmas. *)
+Module AbsFull.
+  Import TV.Gen.AbsPosEnums TV.Model.AbsPosBase TV.Gen.AbsPosGen TV.Model.AbsPos TV.Model.BoxSizingAbs TV.Proofs.BoxSizingAbsProofs.
+  Import TV.Model.ScaleBase TV.Model.ScaleAbs TV.Proofs.ScaleAbsProofs TV.Proofs.BoxSizingAbsFull.
+
+  Theorem C12_abs_block_full : forall (ct : @Container XQ) (sp : Point XQ) (st : AbsStyle XQ) (m : Size (option XQ) -> Size XQ),
+    abs_eligible st -> abs_measure_homog 1 m m ->
+    absout_rel 1 (abs_block_style ct sp st m) (abs_block_style ct sp (abs_to_border_box st) m).
+  Proof. exact abs_block_full. Qed.
+  Theorem C12_abs_flex_full : forall (c : FlexConstants XQ) (st : AbsStyle XQ) (m : Size (option XQ) -> Size XQ),
+    abs_eligible st -> abs_measure_homog 1 m m ->
+    absout_rel 1 (abs_flex_style c st m) (abs_flex_style c (abs_to_border_box st) m).
+  Proof. exact abs_flex_full. Qed.
+  Theorem C12_abs_grid_full : forall (ct : @Container XQ) ji ai (st : AbsStyle XQ) (m : Size (option XQ) -> Size XQ),
+    abs_eligible st -> abs_measure_homog 1 m m ->
+    absout_rel 1 (abs_grid_style ct ji ai st m) (abs_grid_style ct ji ai (abs_to_border_box st) m).
+  Proof. exact abs_grid_full. Qed.
+  Print Assumptions C12_abs_block_full.
+  Print Assumptions C12_abs_flex_full.
+  Print Assumptions C12_abs_grid_full.
+
+  (* non-vacuity: the measure premise holds of a non-trivial function; and the resolve stage of the example style, evaluated *)
+  Definition ex12_abs_view (i : AbsIn XQ) :=
+    (option_map x_red (s_width (ai_size i)), option_map x_red (s_height (ai_min0 i)), option_map x_red (s_width (ai_max i))).
+  Example C12_abs_example :
+    (forall w h, abs_measure_homog 1 (abs_measure_known_or w h) (abs_measure_known_or w h)) /\
+    let area := mkSize (Fin 200) (Fin 100) in let off := mkPoint (Fin 2) (Fin 2) in
+    ex12_abs_view (block_resolve area off ex_abs_style) = (Some (Fin 45), Some (Fin 14), Some (Fin 95)) /\
+    ex12_abs_view (block_resolve area off (abs_to_border_box ex_abs_style)) = (Some (Fin 45), Some (Fin 14), Some (Fin 95)) /\
+    ex12_abs_view (grid_resolve (mkRect (Fin 0) (Fin 200) (Fin 0) (Fin 100)) (abs_to_border_box ex_abs_style))
+      = (Some (Fin 45), Some (Fin 14), Some (Fin 95)).
+  Proof. split; [exact abs_measure_known_or_respects|]. repeat split; vm_compute; reflexivity. Qed.
+End AbsFull.
 
 (* ---------------------------------------------------------------------------------------------------------------- *)
 (* the source, as scanned on this run.  Every function with a `let box_sizing_adjustment = ..` has exactly one, of the shape
@@ -142,12 +201,30 @@ Theorem C12_minimum_contribution_partial :
 Proof. exact minimum_contribution_invariant. Qed.
 
 (* ... where it is not: padding+border 10, max-size 10 (content-box) resp. 20 (border-box), min-content contribution 20 ->
-   10 resp. 20.  `vh c12 demo` shows the same numbers on the implementation. *)
+   10 resp. 20.  `vh c12 demo` shows the same DEFECT on the implementation (with other numbers, see below). *)
 Theorem C12_minimum_contribution_refuted :
   exists pb mx mc,
     ~ xeq (minimum_contribution_axis ContentBox pb Auto Auto mx None None true true mc None)
           (minimum_contribution_axis BorderBox pb (grow_dim pb Auto) (grow_dim pb Auto) (grow_dim pb mx) None None true true mc None).
 Proof. exact minimum_contribution_refuted. Qed.
+
+(* the witness with its numbers (the existential above hides them), and two instances of the _partial theorem where the
+   function IS invariant: not compressible-replaced capped (64 both ways), and a definite size chain (40 both ways).
+   NOTE: `vh c12 demo` replays the DEFECT on the implementation with other numbers (content 100, padding 5+5) and the check
+   only requires the two layouts to differ; the model values 10 / 20 below are not compared with the implementation. *)
+Example C12_minimum_contribution_witness_values :
+  x_red (minimum_contribution_axis ContentBox (Fin 10) Auto Auto (Length (Fin 10)) None None true true (Fin 20) None) = Fin 10 /\
+  x_red (minimum_contribution_axis BorderBox (Fin 10) (grow_dim (Fin 10) Auto) (grow_dim (Fin 10) Auto) (grow_dim (Fin 10) (Length (Fin 10)))
+                                   None None true true (Fin 20) None) = Fin 20.
+Proof. split; vm_compute; reflexivity. Qed.
+Example C12_minimum_contribution_example :
+  x_red (minimum_contribution_axis ContentBox (Fin 10) Auto Auto Auto None None true true (Fin 70) (Some (Fin 64))) = Fin 64 /\
+  x_red (minimum_contribution_axis BorderBox (Fin 10) (grow_dim (Fin 10) Auto) (grow_dim (Fin 10) Auto) (grow_dim (Fin 10) Auto)
+                                   None None true true (Fin 70) (Some (Fin 64))) = Fin 64 /\
+  x_red (minimum_contribution_axis ContentBox (Fin 10) (Length (Fin 30)) Auto (Length (Fin 20)) None None true false (Fin 70) None) = Fin 40 /\
+  x_red (minimum_contribution_axis BorderBox (Fin 10) (grow_dim (Fin 10) (Length (Fin 30))) (grow_dim (Fin 10) Auto)
+                                   (grow_dim (Fin 10) (Length (Fin 20))) None None true false (Fin 70) None) = Fin 40.
+Proof. repeat split; vm_compute; reflexivity. Qed.
 
 (* with the idiom in that branch the cap would be invariant (the repair) *)
 Theorem C12_compressible_cap_adjusted : forall (pb : XQ) (sz mx : Dimension XQ) (c : XQ),
@@ -259,7 +336,14 @@ End EngineLevel.
    (the premise of C12_leaf).  Parameters of the resumption as in C04: proved for all `pre` / `abs_child` satisfying PreRel /
    AbsChildRel at the relation bb_rel, discharged for block_pre and abs_child_simple; the real absolute-item routine
    (C12_abs_block is about its style resolution) is not plugged in.  Flex and grid containers: BoxSizingBlind stays a premise
-   (and fails for grid in the known-finding class, C12_minimum_contribution_refuted). *)
+   (and fails for grid in the known-finding class, C12_minimum_contribution_refuted).
+
+   PARTIAL with respect to the property (audit, wave 5c; the same caveats as the BlockTrees module of Props/C04.v): every node
+   with children is laid out by the block algorithm whatever its `display`; the absolute pass is the simple routine
+   abs_child_simple, not the translated one (its whole kernel is covered separately by C12_abs_block_full); exact-key memo, root
+   input given directly; `bl_memo` is executed by no correspondence runner (C04_block_engine_agrees_with_K1_model is the
+   example-level tie to the K-checked Model/BlockTree.v); `oprel` conclusions allow "both evaluations fail", excluded on the
+   example by computation. *)
 Section BlockTrees.
   Import TV.Gen.BlockGen TV.Model.Block TV.Model.ScaleBase TV.Model.ScaleBlock TV.Proofs.ScaleKit.
   Import TV.Model.Engine TV.Model.EngineRel TV.Proofs.EngineRelProofs.
